@@ -1,6 +1,6 @@
 SPECIFICATION Spec
 CONSTANTS
-  LockedSteps = {"Unregister"} Transport = "ws"
+  LockedSteps = {"Unregister"} Transport = "ws" ClosesReplaced = TRUE
 INVARIANTS NothingBeforeTheEnd GaugeNeverNegative
 PROPERTIES EndingReleasesEverything
 CHECK_DEADLOCK FALSE
